@@ -102,6 +102,18 @@ class Numpy0d(object):
     return self._np.array(self._f(r))
 
 
+class IntWhenWhole(object):
+  """A plain Python callable (no derivatives) that returns an int where its value is a whole number - a capped core
+  '100 if r < rc else ...' does - and a float elsewhere."""
+
+  def __init__(self, f):
+    self._f = f
+
+  def __call__(self, r):
+    v = self._f(r)
+    return int(v) if v == int(v) and abs(v) < 1e15 else v
+
+
 def pair_potentials_api(model, wrap=None):
   """Potential objects built through the Python API from a pair model spec."""
   from atsim.potentials import Potential
@@ -116,6 +128,8 @@ def pair_potentials_api(model, wrap=None):
       f = emit.api_callable(node, model.get("tables"))
       if model.get("api_results") == "numpy0d":
         f = Numpy0d(f)
+      if model.get("api_results") == "int_when_whole":
+        f = IntWhenWhole(f)
       if wrap is not None:
         f = wrap(f, (a, b))
       shared[key] = f
